@@ -1032,6 +1032,70 @@ def prim_cases(prop: str, rng: random.Random, n: int, res: Result) -> list[Failu
                                      {"spec": spec, "primitive": desc}))
     return fails
 
+
+# ---------------------------------------------------------------------------------------------
+# C04/C05 "after construction": construction through the importer, with id columns that are
+# absent, valid, or not valid (placeholders / garbage must be recomputed, not trusted)
+# ---------------------------------------------------------------------------------------------
+def import_construction_cases(prop: str, rng: random.Random, n: int, res: Result) -> list[Failure]:
+    import pandas as pd
+    from funtracks.import_export import tracks_from_df
+    fails: list[Failure] = []
+    seen: set = set()
+    for _ in range(n):
+        nodes, edges = G.gen_forest(rng, 7, 4)
+        if not nodes:
+            continue
+        if rng.random() < 0.35:
+            edges = []  # unlinked detections / a single frame
+        G.assign_ids(rng, nodes, edges)
+        parent = {e["v"]: e["u"] for e in edges}
+        styles = {c: rng.choice(["absent", "valid", "constant", "constant", "garbage"]) for c in ("track_id", "lineage_id")}
+        rows = []
+        for x in nodes:
+            row = {"t": x["time"], "y": float(x["pos"]), "x": float(x["pos"]), "id": x["id"],
+                   "parent_id": parent.get(x["id"], -1)}
+            for c, key in (("track_id", "tid"), ("lineage_id", "lin")):
+                st = styles[c]
+                if st == "valid":
+                    row[c] = x[key]
+                elif st == "constant":
+                    row[c] = 1
+                elif st == "garbage":
+                    row[c] = rng.randrange(1, 4)
+            rows.append(row)
+        nm = {"time": "t", "pos": ["y", "x"], "id": "id", "parent_id": "parent_id"}
+        for c in ("track_id", "lineage_id"):
+            if styles[c] != "absent":
+                nm[c] = c
+        desc = {"rows": rows, "name_map": nm, "styles": styles}
+        try:
+            tr = tracks_from_df(pd.DataFrame(rows), node_name_map=nm)
+        except Exception as e:
+            res.count(f"import-construct:raised:{type(e).__name__}")
+            continue
+        res.evaluations += 1
+        res.count("import-construct:" + styles["track_id"] + "/" + styles["lineage_id"] + ("/no-edges" if not edges else ""))
+        res.nontrivial.add(h(desc))
+        g = tr.graph
+        if prop == "C04":
+            if styles["track_id"] not in ("absent", "valid"):
+                # C04 speaks about construction from a graph WITHOUT ids; user-supplied ids are
+                # kept whenever geff's validate_tracklets (third party) accepts them, and that
+                # accepts a tracklet continuing from a dividing parent into one daughter
+                continue
+            lab = {n_: g.nodes[n_].get("track_id") for n_ in g.nodes}
+            probs = partition_problems(g, segments(g), lab, "track id")
+        else:
+            lab = {n_: g.nodes[n_].get("lineage_id") for n_ in g.nodes}
+            probs = partition_problems(g, list(nx.weakly_connected_components(g)), lab, "lineage id")
+        for p_ in probs:
+            sig = f"{prop}|construct-import|{styles['track_id' if prop == 'C04' else 'lineage_id']}-ids|{p_.split(':')[0]}"
+            if sig not in seen:
+                seen.add(sig)
+                fails.append(Failure("oracle", prop, sig, f"tracks_from_df with id columns {styles}: {p_}", {"import_case": desc}))
+    return fails
+
 # ---------------------------------------------------------------------------------------------
 # correspondence with the Lean model
 # ---------------------------------------------------------------------------------------------
@@ -1234,6 +1298,9 @@ def worker(args) -> Result:
         if len(batch_lines) > 4000:
             flush()
     flush()
+    if prop in ("C04", "C05") and fixed is None:
+        for f in import_construction_cases(prop, random.Random(seed ^ 0xC0DE), max(10, nsessions // 2), res):
+            res.failures.append(f)
     if prop == "C01" and fixed is None:
         for f in prim_cases(prop, random.Random(seed ^ 0x5EED), max(20, nsessions), res):
             res.failures.append(f)
